@@ -472,6 +472,16 @@ func substitute(c *tspace.Col, d Datum, names map[string]string) Datum {
 // Inserts must carry their UUID (the harness chooses it or copies the one the
 // library assigned).
 func (db *DB) Transact(ops []Op) *Outcome {
+	return db.transact(ops, true)
+}
+
+// ExecOnly executes the operations without commit-time processing and returns
+// the working state in Outcome.Post (nil if an operation failed).
+func (db *DB) ExecOnly(ops []Op) *Outcome {
+	return db.transact(ops, false)
+}
+
+func (db *DB) transact(ops []Op, commit bool) *Outcome {
 	out := &Outcome{Post: db, Names: map[string]string{}}
 	work := db.Clone()
 
@@ -718,6 +728,10 @@ func (db *DB) Transact(ops []Op) *Outcome {
 		}
 	}
 
+	if !commit {
+		out.Post = work
+		return out
+	}
 	// commit-time processing
 	if err, why := work.commit(); err != "" {
 		out.CommitErr, out.CommitWhy = err, why
